@@ -91,7 +91,12 @@ _add(_c("w_usn_nonorth_sl", "USN", [2, 2], [3, 4, 3], 1, "lsn", dict(orthogonal=
 _add(_c("w_cdn_nonorth_sl", "CDN", [2, 2], [4, 4, 4, 4, 4, 4], 1, "cdn", dict(orthogonal=False, **DN), fpol="quad", wall="slanted"))
 _add(_c("w_lsn_orth_many_acw", "LSN", [2, 2], [3, 4, 3], 1, "lsn", dict(orthogonal=True), fpol="quad", wall="many", wall_clockwise=True))
 _add(_c("w_cdn_orth_sl_g2", "CDN", [2, 2], [3, 3, 3, 3, 3, 3], 2, "cdn", dict(orthogonal=True, **DN), fpol="quad", wall="slanted"))
-C11_WALLS_QUICK = ["w_lsn_nonorth_sl", "w_lsn_nonorth_sl_acw_g2", "w_lsn_nonorth_many_g0", "w_usn_nonorth_sl", "w_lsn_orth_many_acw"]
+# the rectangular wall started at its outboard corners (a long closing edge at large R), open and explicitly closed input
+_add(_c("w_lsn_orth_cw_s3", "LSN", [2, 2], [3, 4, 3], 1, "lsn", dict(orthogonal=True), fpol="quad", wall_start=3))
+_add(_c("w_lsn_orth_acw_s1", "LSN", [2, 2], [3, 4, 3], 1, "lsn", dict(orthogonal=True), fpol="quad", wall_clockwise=True, wall_start=1))
+_add(_c("w_lsn_orth_sl_closed_s5", "LSN", [2, 2], [3, 4, 3], 1, "lsn", dict(orthogonal=True), fpol="quad", wall="slanted", wall_start=5, wall_closed=True))
+C11_WALLS_QUICK = ["w_lsn_nonorth_sl", "w_lsn_nonorth_sl_acw_g2", "w_lsn_nonorth_many_g0", "w_usn_nonorth_sl", "w_lsn_orth_many_acw",
+                   "w_lsn_orth_cw_s3", "w_lsn_orth_acw_s1", "w_lsn_orth_sl_closed_s5"]
 C11_WALLS = C11_WALLS_QUICK + ["w_cdn_nonorth_sl", "w_cdn_orth_sl_g2"]
 
 # ---- weak poloidal field (psi of order 1e-2 Wb: dR/dpsi large far from the X-point): C04, seeded change C04_clip_direction
